@@ -124,3 +124,6 @@ func VFinalize(ex *SequentialPopulationEpochExecutor, opts *neat.Options, p *Pop
 
 // VSortedSpecies reads the executor's species order and best species id after VPrepare
 func VSortedSpecies(ex *SequentialPopulationEpochExecutor) ([]*Species, int) { return ex.sortedSpecies, ex.bestSpeciesId }
+
+// VCompatibility is Genome.compatibility (method chosen by opts.GenCompatMethod)
+func VCompatibility(a, b *Genome, opts *neat.Options) float64 { return a.compatibility(b, opts) }
